@@ -118,8 +118,10 @@ func (s *c20Setting) String() string {
 	return fmt.Sprintf("{ca=%s idx=%d skip=%s interval=%v/%v}", [...]string{"none", "inline", "file"}[s.caKind], s.caIdx, s.skipDesc, s.hasIntvl, s.interval)
 }
 
-// effective returns the set of CA indices that may currently be the effective CA of a file setting, and
-// whether the answer is certain. A write counts once `interval` (+ slack) has passed since it happened.
+// effective computes what the watcher must / may have made the effective CA of a file setting. The watcher sees
+// the file only at its ticks: a content that stayed in place for more than interval (+ slack) has certainly been
+// observed, a content that was overwritten sooner may or may not have been; garbage (and identical bytes) never
+// changes the effective CA. Returns the certain value and the set of possible other values.
 func (s *c20Setting) effective(now time.Time, slack time.Duration) (must int, maybe map[int]bool) {
 	cur := s.loadCA
 	maybe = map[int]bool{}
@@ -129,19 +131,23 @@ func (s *c20Setting) effective(now time.Time, slack time.Duration) (must int, ma
 	if !(s.hasIntvl && s.interval > 0) {
 		return cur, maybe // no watching: content at load time
 	}
-	for _, w := range s.writes {
-		if w.ca < 0 {
-			continue // garbage and identical bytes keep the previous CA
+	content := s.loadCA // what the file holds (-1 = garbage)
+	for i, w := range s.writes {
+		if w.ca != -2 {
+			content = w.ca
 		}
-		age := now.Sub(w.at)
-		switch {
-		case age > s.interval+slack:
-			cur = w.ca
-			maybe = map[int]bool{}
+		end := now
+		if i+1 < len(s.writes) {
+			end = s.writes[i+1].at
+		}
+		if content < 0 {
+			continue
+		}
+		switch d := end.Sub(w.at); {
+		case d > s.interval+slack:
+			cur, maybe = content, map[int]bool{}
 		default:
-			maybe[cur] = true
-			maybe[w.ca] = true
-			cur = w.ca
+			maybe[content] = true
 		}
 	}
 	return cur, maybe
@@ -264,26 +270,32 @@ func c20Prop(c *sim.Case) {
 			}
 			idx := int(srv[2] - '0')
 			eff, maybe := s.effective(now, 30*time.Millisecond)
-			if maybe[idx] || (len(maybe) > 0 && eff == idx) {
-				return eff == idx, false
+			if len(maybe) > 0 && (maybe[idx] || eff == idx) {
+				return eff == idx, false // either outcome is acceptable right now
 			}
 			return eff == idx, true
 		}
 		want, certain := expect(time.Now())
 		got := try()
 		deadline := time.Now().Add(5 * time.Second)
-		for got != want && !certain && time.Now().Before(deadline) {
+		soon := time.Now().Add(300 * time.Millisecond)
+		for got != want && !certain && time.Now().Before(soon) {
 			time.Sleep(10 * time.Millisecond)
 			want, certain = expect(time.Now())
 			got = try()
 		}
-		if got != want && s.caKind == 2 && s.hasIntvl && s.interval > 0 && len(s.writes) > 0 {
+		if got != want && certain && s.caKind == 2 && s.hasIntvl && s.interval > 0 && len(s.writes) > 0 {
 			// the reload is asynchronous: poll for the expected outcome under a generous deadline
 			for got != want && time.Now().Before(deadline) {
 				time.Sleep(10 * time.Millisecond)
-				want, _ = expect(time.Now())
+				want, certain = expect(time.Now())
 				got = try()
 			}
+		}
+		if !certain {
+			// a content that was replaced before the watcher was bound to see it: either outcome is legitimate
+			c.Class("either-band-unresolved")
+			want = got
 		}
 		c.Logf("handshake setting %d -> %s: success=%v (reference: %v)", si, srv, got, want)
 		if s.caKind == 2 && len(s.writes) > 0 && srv != "sys" && srv != "foreign" {
